@@ -439,6 +439,8 @@ class Func:
 
 _HDR_FN = re.compile(r'^fn (.*?)\((.*)\) -> (.*) \{$')
 _HDR_CONST = re.compile(r'^(?:const|static|static mut) (.*?): (.*) = \{$')
+_HDR_PROMOTED = re.compile(r'^const (.*::promoted\[\d+\]): (.*) = \{$')
+_HDR_CONST_INLINE = re.compile(r'^const ([A-Za-z_][\w:]*): (.*?) = (const .*);$')
 _LET = re.compile(r'^\s*let (?:mut )?(_\d+): (.*);$')
 _BB = re.compile(r'^    (bb\d+)(?: \(cleanup\))?: \{$')
 
@@ -464,9 +466,19 @@ def parse_mir(text):
                     for a, b in params:
                         cur.locals[a] = b
             elif line.startswith(('const ', 'static ')):
-                m = _HDR_CONST.match(line)
+                m = _HDR_PROMOTED.match(line) or _HDR_CONST.match(line)
                 if m:
                     cur = Func(m.group(1).strip(), [], m.group(2).strip(), 'const')
+                else:
+                    m = _HDR_CONST_INLINE.match(line)
+                    if m:
+                        # `const NAME: T = const VALUE;` — a named constant with a literal value
+                        f = Func(m.group(1).strip(), [], m.group(2).strip(), 'const')
+                        try:
+                            f.blocks['bb0'] = [('assign', ('_0', []), ('use', parse_operand(m.group(3)))), ('return',)]
+                        except Exception as ex:
+                            f.blocks['bb0'] = [('unsupported', line)]
+                        funcs.setdefault(f.name, []).append(f)
             i += 1
             continue
         if line == '}':
